@@ -182,13 +182,21 @@ def r183(ctx, res):
                 and all(isinstance(v, ast.Constant) and isinstance(v.value, int) for v in n.value.values):
             table = {k.id: v.value for k, v in zip(n.value.keys, n.value.values)}
             table_name = n.targets[0].id
-    # the fall-back rank: types.append((<const>, type(item))) in the for-else
-    for n in walk_local(fi.node):
-        if isinstance(n, ast.For) and n.orelse:
-            for c in ast.walk(ast.Module(body=n.orelse, type_ignores=[])):
-                if isinstance(c, ast.Tuple) and len(c.elts) == 2 and isinstance(c.elts[0], ast.Constant) \
-                        and txt(c.elts[1]).startswith("type("):
-                    default = c.elts[0].value
+    # the fall-back rank: a pair (<const>, type(item)) in unify_types or in a function of its module that it calls
+    bodies = [fi]
+    for c in walk_local(fi.node):
+        if isinstance(c, ast.Call) and isinstance(c.func, ast.Name):
+            b = fi.resolve(c.func.id)
+            if b is not None and b.kind == "func" and b.target.module is fi.module and all(b.target is not y for y in bodies):
+                bodies.append(b.target)
+    defaults = set()
+    for fb in bodies:
+        for c in walk_local(fb.node):
+            if isinstance(c, ast.Tuple) and len(c.elts) == 2 and isinstance(c.elts[0], ast.Constant) \
+                    and isinstance(c.elts[0].value, int) and txt(c.elts[1]).startswith("type("):
+                defaults.add(c.elts[0].value)
+    if len(defaults) == 1:
+        default = defaults.pop()
     if table is None or default is None:
         raise AnalysisError("utils/util.py: the promotion table of unify_types has an unrecognised shape")
     want = ["Fraction", "Decimal", "float", "int"]
